@@ -240,3 +240,16 @@ Theorem C08_source_visit : forall (ky : key) (v : obj),
   apply_action oval (Put None None) ky v = Some (src_default_visit ky v).
 Proof. exact source_visit. Qed.
 Print Assumptions C08_source_visit.
+
+(* get_path's lookup step as written now (its except clauses, the int(seg) retry)
+   is the model's getitem, and research's enter wrapper as written now is the
+   model's reported_x *)
+Theorem C08_source_get_path_step : forall defs cur seg,
+  src_get_path_step defs cur seg =
+  match getitem defs cur seg with Ok c => Ok c | Raise _ => Raise PathAccessError end.
+Proof. exact source_get_path_step. Qed.
+Print Assumptions C08_source_get_path_step.
+
+Theorem C08_source_research : forall q reraise lg, research_fold q reraise lg = reported_x q reraise lg.
+Proof. exact source_research. Qed.
+Print Assumptions C08_source_research.
